@@ -124,6 +124,25 @@ fn construct(c: &Ctor, tmpdir: &str, id: u64) -> BoxResp {
 }
 
 /// Runs one case against the real crate and returns the protocol line.
+/// accepts `left` bytes, then every write fails
+pub struct FailingWriter {
+    pub left: usize,
+}
+
+impl std::io::Write for FailingWriter {
+    fn write(&mut self, buf: &[u8]) -> std::io::Result<usize> {
+        if self.left == 0 {
+            return Err(std::io::Error::new(std::io::ErrorKind::BrokenPipe, "gone"));
+        }
+        let n = std::cmp::min(self.left, buf.len());
+        self.left -= n;
+        Ok(n)
+    }
+    fn flush(&mut self) -> std::io::Result<()> {
+        Ok(())
+    }
+}
+
 pub fn run_case(id: u64, c: &RespCase, tmpdir: &str) -> String {
     let mut line = String::new();
     line.push_str(&format!("resp id={}", id));
@@ -163,9 +182,22 @@ pub fn run_case(id: u64, c: &RespCase, tmpdir: &str) -> String {
         }
     ));
 
+    // what this thread printed before must not matter, not even a response whose writer failed in
+    // the middle of the status line, of a long header block or of the body
+    let prefail = id % 5 == 2;
+    line.push_str(&format!(" prefail={}", if prefail { 1 } else { 0 }));
     let cc = c.clone();
     let tmp = tmpdir.to_string();
     let result = std::panic::catch_unwind(move || {
+        if prefail {
+            let budget = [0usize, 7, 600, 1500, 5000][(id as usize / 5) % 5];
+            let long = "v".repeat([10usize, 1100, 3000][(id as usize / 25) % 3]);
+            let r = Response::from_data(vec![b'p'; 4000])
+                .with_header(Header::from_bytes(&b"Set-Cookie"[..], long.as_bytes()).unwrap())
+                .with_chunked_threshold(if id % 2 == 0 { 0 } else { 100000 });
+            let mut w = FailingWriter { left: budget };
+            let _ = r.raw_print(&mut w, HTTPVersion(1, 1), &[], false, None);
+        }
         let mut r = construct(&cc.ctor, &tmp, id);
         let mut use_add = false;
         for o in &cc.ops {
@@ -565,7 +597,7 @@ pub fn enumerate_c04(rng: &mut Rng, full: bool) -> Vec<RespCase> {
     let lens: Vec<usize> = if full {
         vec![0, 1, 2, 15, 16, 17, 255, 256, 4095, 4096, 8191, 8192, 8193, 16383, 16384, 16385, 24576, 32767, 32768, 32769, 65536, 70001]
     } else {
-        vec![0, 1, 16, 255, 8191, 8192, 8193, 16384, 16385, 32768]
+        vec![0, 1, 16, 255, 8191, 8192, 8193, 16384, 16385, 32768, 65536]
     };
     for &len in &lens {
         for declared in [true, false] {
